@@ -1,27 +1,38 @@
 use proc_macro2::TokenStream;
 use quote::quote;
-use syn::{Field, Ident, Index};
+use syn::{Field, Index};
 
-pub fn tuple_exprs(fields: &[&Field], method_ident: &Ident) -> Vec<TokenStream> {
+/// `method` is the path of the trait method (`derive_more::core::ops::Add::add`) and `receiver`
+/// the way `self`'s field is passed to it (nothing, or `&mut`): the call is spelled in full, so
+/// that an inherent method of the field's type with the same name is never picked instead.
+pub fn tuple_exprs(
+    fields: &[&Field],
+    method: &TokenStream,
+    receiver: &TokenStream,
+) -> Vec<TokenStream> {
     let mut exprs = vec![];
 
     for i in 0..fields.len() {
         let i = Index::from(i);
-        // generates `self.0.add(rhs.0)`
-        let expr = quote! { self.#i.#method_ident(rhs.#i) };
+        // generates `Add::add(self.0, rhs.0)`
+        let expr = quote! { #method(#receiver self.#i, rhs.#i) };
         exprs.push(expr);
     }
     exprs
 }
 
-pub fn struct_exprs(fields: &[&Field], method_ident: &Ident) -> Vec<TokenStream> {
+pub fn struct_exprs(
+    fields: &[&Field],
+    method: &TokenStream,
+    receiver: &TokenStream,
+) -> Vec<TokenStream> {
     let mut exprs = vec![];
 
     for field in fields {
         // It's safe to unwrap because struct fields always have an identifier
         let field_id = field.ident.as_ref().unwrap();
-        // generates `x: self.x.add(rhs.x)`
-        let expr = quote! { self.#field_id.#method_ident(rhs.#field_id) };
+        // generates `x: Add::add(self.x, rhs.x)`
+        let expr = quote! { #method(#receiver self.#field_id, rhs.#field_id) };
         exprs.push(expr)
     }
     exprs
